@@ -15,6 +15,20 @@ INTERESTING = ("exec", "compile", "os.system", "os.exec", "os.posix_spawn", "os.
                "os.mkfifo", "os.mknod", "os.write_to")
 
 
+def _caller():
+    """innermost fortls function on the stack (who asked for this?)"""
+    try:
+        f = sys._getframe(2)
+        while f is not None:
+            fn = f.f_code.co_filename
+            if "/fortls/" in fn and "/vf/" not in fn:
+                return os.path.basename(fn) + ":" + f.f_code.co_name
+            f = f.f_back
+    except Exception:
+        pass
+    return "-"
+
+
 def _audit(event, args):
     if not _armed[0] or _audit_fd is None:
         return
@@ -23,15 +37,21 @@ def _audit(event, args):
     try:
         if event == "exec":
             co = args[0]
-            rec = f"exec\t{getattr(co, 'co_filename', '?')}\t{getattr(co, 'co_name', '?')}"
+            rec = f"exec\t{getattr(co, 'co_filename', '?')}\t{getattr(co, 'co_name', '?')}\t{_caller()}"
         elif event == "compile":
             src, fname = args[0], args[1]
-            rec = f"compile\t{fname}\t{(repr(src)[:80] if src is not None else '')}"
+            # traceback formatting parses fortls's own source lines (ast.parse for caret positions): not file content
+            f = sys._getframe(1)
+            while f is not None:
+                if f.f_code.co_filename.endswith(("traceback.py", "linecache.py")):
+                    return
+                f = f.f_back
+            rec = f"compile\t{fname}\t{(repr(src)[:80] if src is not None else '')}\t{_caller()}"
         elif event == "open":
             path, mode, flags = args[0], args[1], args[2]
-            rec = f"open\t{path}\t{mode}\t{flags}"
+            rec = f"open\t{path}\t{mode}\t{flags}\t{_caller()}"
         else:
-            rec = event + "\t" + "\t".join(repr(a)[:200] for a in args)
+            rec = event + "\t" + "\t".join(repr(a)[:200] for a in args) + "\t" + _caller()
         os.write(_audit_fd, (str(os.getpid()) + "\t" + rec.replace("\n", "\\n") + "\n").encode("utf-8", "replace"))
     except Exception:
         pass
